@@ -819,8 +819,9 @@ class _ADie:
 
 
 def g2(prog):
-    from absint import Evaluator
+    from cxxobj import CxxEvaluator, VarPtr, Sym
     import itertools
+    DWCTX = Sym.of("dwctx")
     inst, findings = [], []
     f = prog.func_opt("(anonymous namespace)::find_attribute")
     pred = prog.func_opt("(anonymous namespace)::attr_should_be_integrated")
@@ -853,7 +854,7 @@ def g2(prog):
         "ctor:std::pair<*": lambda ev, o, a: (a[0], a[1]) if len(a) == 2 else (a[0] if a else None),
         "std::make_unique<value_die*": lambda ev, o, a: ("value_die", a[1]),
     }
-    ev = Evaluator(hooks, {}, ptr_lt=True, prog=prog)
+    ev = CxxEvaluator(hooks, {}, prog=prog)
     SPEC, AO = ats["DW_AT_specification"], ats["DW_AT_abstract_origin"]
     queried = [ats["DW_AT_name"], ats["DW_AT_inline"], ats["DW_AT_sibling"], ats["DW_AT_declaration"]]
     excluded = {ats["DW_AT_sibling"], ats["DW_AT_declaration"]}
@@ -870,6 +871,7 @@ def g2(prog):
         return None
     n = 0
     bad = None
+    bad2 = None
     # graphs: A with optional spec->S and ao->O; S and O optionally refer on to T; each of S, O, T may or may not carry the attribute
     for has_spec, has_ao, s_has, o_has, s_to_t, o_to_t, t_has, a_has in itertools.product((False, True), repeat=8):
         for at in queried:
@@ -891,9 +893,23 @@ def g2(prog):
             if t_has:
                 T.attrs[at] = 1
             for don in ("cooked", "raw"):
-                r = ev.call(f, None, [A, at, don_enum[don], None, None])
+                cell = {}
+                ret_at = VarPtr(lambda: cell.get("at"), lambda v: cell.__setitem__("at", v), "ret_at")
+                r = ev.call(f, None, [A, at, don_enum[don], ret_at, DWCTX])
                 n += 1
                 got = r[0][1] if isinstance(r, tuple) and isinstance(r[0], tuple) else r
+                # the DIE in which op_atval_die decodes the attribute: the accompanying value_die, or the original DIE
+                vd = r[1] if isinstance(r, tuple) and len(r) == 2 else None
+                if got in ("found", "found_integrated") and bad2 is None:
+                    owner = cell.get("at")[1] if isinstance(cell.get("at"), tuple) else None
+                    decode_in = vd[1] if isinstance(vd, tuple) and vd[0] == "value_die" else A
+                    if owner is None:
+                        bad2 = "the attribute found is not stored through ret_at"
+                    elif decode_in is not owner:
+                        bad2 = "the attribute is read from DIE %s but handed out together with DIE %s" % (owner, decode_in)
+                    if bad2:
+                        bad2 += " (on A{%s%s%s} S{%s%s} O{%s%s} T{%s})" % ("X " if a_has else "", "spec->S " if has_spec else "", "ao->O" if has_ao else "",
+                                                                        "X " if s_has else "", "ao->T" if s_to_t else "", "X " if o_has else "", "spec->T" if o_to_t else "", "X" if t_has else "")
                 exp = reachable(A, at)
                 if don == "raw" and exp == "integrated":
                     exp = None
@@ -908,6 +924,11 @@ def g2(prog):
         findings.append({"key": "G2:find_attribute", "where": "libzwerg/builtin-dw.cc:%s" % f["l"].split(":")[-1],
                          "msg": "`?AT_x` / `@AT_x` no longer find exactly the attributes reachable through DW_AT_specification OR DW_AT_abstract_origin: %s" % bad,
                          "detail": None})
+    inst.append(("G2:find_attribute:owner", {"checked": True}))
+    if bad2:
+        findings.append({"key": "G2:find_attribute:owner", "where": "libzwerg/builtin-dw.cc:%s" % f["l"].split(":")[-1],
+                         "msg": "`@AT_x` decodes an integrated attribute in the wrong DIE: %s; its value (file names, ranges, references) is then resolved against "
+                                "another unit than `attribute ?AT_x cooked value` uses" % bad2, "detail": None})
     return inst, findings
 
 
@@ -1148,4 +1169,195 @@ def x3(prog, tier="quick"):
     findings = [f for f in findings if not (f["key"] in seen or seen.add(f["key"]))]
     for k in ("locexpr_producer", "length", "address", "elem", "relem", "offset", "label", "?OP_x:op", "?OP_x:elem"):
         inst.append(("X3:" + k, {"lists": len(lists), "next_calls": n_eval}))
+    return inst, findings
+
+
+# ---------------------------------------------------------------------------
+# G3: the `attribute` word on abstract DIE graphs (attribute_producer interpreted from source)
+
+def g3(prog, tier="quick"):
+    """attribute_producer (constructor, next_die, schedule, seen, next) interpreted on the DIE graphs of G2 with an abstract attribute
+    iterator: a raw DIE yields exactly its own attributes in stored order; a cooked DIE yields its own attributes first and then each
+    attribute reachable through DW_AT_specification / DW_AT_abstract_origin whose name it has not yielded yet, never DW_AT_sibling or
+    DW_AT_declaration of another DIE; results are numbered from 0 and every value_attr is wrapped together with the DIE the attribute
+    was read from (its `value` is decoded in that DIE's unit)."""
+    import itertools
+    from cxxobj import CxxEvaluator, Struct, Obj, Sym, OutOfBounds
+    from absint import Thrown
+    inst, findings = [], []
+    cls = "(anonymous namespace)::attribute_producer"
+    ctor = [f for f in prog.funcs.values() if f.get("cls") == cls and f["n"] == "attribute_producer" and f.get("body") is not None]
+    nxt = [f for f in prog.funcs.values() if f.get("cls") == cls and f["n"] == "next" and f.get("body") is not None]
+    if len(ctor) != 1 or len(nxt) != 1:
+        raise Broken("anchor attribute_producer (constructor / next) vanished")
+    ats = {}
+    for e in prog.enums.values():
+        if e["file"] == "/usr/include/dwarf.h":
+            for c in e["consts"]:
+                if c["n"] in ("DW_AT_specification", "DW_AT_abstract_origin", "DW_AT_name", "DW_AT_sibling", "DW_AT_declaration", "DW_AT_inline"):
+                    ats[c["n"]] = c["v"]
+    don_enum = None
+    for e in prog.enums.values():
+        if e["q"] == "doneness":
+            don_enum = {c["n"]: ("enum", c["n"], c["v"]) for c in e["consts"]}
+    if len(ats) < 6 or don_enum is None:
+        raise Broken("enumerations needed by G3 not found")
+    SPEC, AO = ats["DW_AT_specification"], ats["DW_AT_abstract_origin"]
+    excluded = {ats["DW_AT_sibling"], ats["DW_AT_declaration"]}
+    names = {v: k for k, v in ats.items()}
+
+    def die_struct(d):
+        return Struct("Dwarf_Die", {"die": d, "addr_": 0})
+
+    class AIt:
+        """abstract attr_iterator: position in the attribute list of a DIE"""
+        def __init__(self, die, pos):
+            self.die, self.pos = die, pos
+
+        def at_end(self):
+            return self.die is None or self.pos >= len(self.die.attrs)
+
+        def copy_value(self):
+            return AIt(self.die, self.pos)
+
+        def assign_from(self, o):
+            self.die, self.pos = o.die, o.pos
+
+        def cur(self):
+            if self.at_end():
+                raise OutOfBounds("dereference of an attribute iterator at its end")
+            code = list(self.die.attrs)[self.pos]
+            v = self.die.attrs[code]
+            return Struct("Dwarf_Attribute", {"code": code, "form": 1, "valp": (self.die.name, code), "cu": self.die.name, "owner": self.die, "ref": v if isinstance(v, _ADie) else None})
+
+    def it_inc(ev, o, a):
+        if a:                     # postfix
+            old = o.copy_value()
+            o.pos += 1
+            return old
+        o.pos += 1
+        return o
+
+    def formref(ev, o, a):
+        at, mem = a
+        if not isinstance(at, Struct) or at.ref is None:
+            return None
+        mem.die = at.ref
+        return mem
+
+    def thrower(ev, o, a):
+        raise Thrown("libdw error")
+    hooks = {
+        "ctor:attr_iterator": lambda ev, o, a: (a[0].copy_value() if isinstance(a[0], AIt) else AIt(a[0].die, 0)) if a else AIt(None, 0),
+        "attr_iterator::end": lambda ev, o, a: AIt(None, 0),
+        "attr_iterator::operator==": lambda ev, o, a: (o.at_end() and a[0].at_end()) or (o.die is a[0].die and o.pos == a[0].pos),
+        "attr_iterator::operator!=": lambda ev, o, a: not ((o.at_end() and a[0].at_end()) or (o.die is a[0].die and o.pos == a[0].pos)),
+        "attr_iterator::operator++": it_inc,
+        "attr_iterator::operator*": lambda ev, o, a: o.cur(),
+        "dwarf_formref_die": formref,
+        "throw_libdw": thrower,
+    }
+    ev = CxxEvaluator(hooks, {}, prog=prog)
+    filler = [ats["DW_AT_name"], ats["DW_AT_inline"], ats["DW_AT_sibling"], ats["DW_AT_declaration"]]
+    n = 0
+    bad = None
+    key = "G3:attribute_producer"
+
+    def closure(d, seen=None):
+        seen = seen if seen is not None else []
+        if d in seen:
+            return seen
+        seen.append(d)
+        for r in (SPEC, AO):
+            if isinstance(d.attrs.get(r), _ADie):
+                closure(d.attrs[r], seen)
+        return seen
+    combos = list(itertools.product((False, True), repeat=6))
+    attr_sets = [(), (0,), (0, 2), (1, 3), (0, 1, 2, 3)]
+    try:
+        for has_spec, has_ao, s_to_t, o_to_t, spec_first, t_shared in combos:
+            for a_set, s_set, o_set in itertools.product(attr_sets, repeat=3) if tier == "thorough" else itertools.product(attr_sets[:4], attr_sets[1:3], attr_sets[2:4]):
+                A, S, O, T = _ADie("A"), _ADie("S"), _ADie("O"), _ADie("T")
+                refs = [(SPEC, S, has_spec), (AO, O, has_ao)]
+                if not spec_first:
+                    refs.reverse()
+                for i in a_set[:1]:
+                    A.attrs[filler[i]] = 1
+                for code, tgt, on in refs:
+                    if on:
+                        A.attrs[code] = tgt
+                for i in a_set[1:]:
+                    A.attrs[filler[i]] = 1
+                for i in s_set:
+                    S.attrs[filler[i]] = 1
+                for i in o_set:
+                    O.attrs[filler[i]] = 1
+                if s_to_t:
+                    S.attrs[AO] = T
+                if o_to_t:
+                    O.attrs[SPEC] = T if t_shared else S
+                T.attrs[filler[0]] = 1
+                T.attrs[filler[3]] = 1
+                for don in ("cooked", "raw"):
+                    vd = Obj("value_die")
+                    vd.m_dwctx, vd.m_die, vd.m_import, vd.m_pos = Sym.of("dwctx"), die_struct(A), None, 0
+                    vd.m_doneness = don_enum[don]
+                    prod = ev.construct(ctor[0], Obj(cls), [vd])
+                    got = []
+                    for _ in range(40):
+                        v = ev.call(nxt[0], prod, [])
+                        n += 1
+                        if v is None:
+                            break
+                        got.append(v)
+                    else:
+                        bad = "the producer does not terminate"
+                    desc = "A{%s} S{%s} O{%s} T{%s} (%s)" % tuple(
+                        [", ".join(names.get(c, hex(c)).replace("DW_AT_", "") + ("->" + v.name if isinstance(v, _ADie) else "") for c, v in d.attrs.items()) for d in (A, S, O, T)] + [don])
+                    seq = []
+                    for g in got:
+                        at = getattr(g, "m_attr", None)
+                        dv = getattr(g, "m_die", None)
+                        dd = getattr(getattr(dv, "m_die", None), "die", None) if dv is not None else None
+                        seq.append((at.code if at is not None else None, at.owner if at is not None else None, dd, getattr(g, "m_pos", None)))
+                    own = list(A.attrs)
+                    reach = closure(A)
+                    if bad is None and [c for c, _, _, _ in seq[:len(own)]] != own:
+                        bad = "the DIE's own attributes %s are not yielded first and in stored order (got %s)" % ([names.get(c, c) for c in own], [names.get(c, c) for c, _, _, _ in seq])
+                    rest = seq[len(own):]
+                    if bad is None and don == "raw" and rest:
+                        bad = "a raw DIE yields attributes of other DIEs: %s" % [names.get(c, c) for c, _, _, _ in rest]
+                    if bad is None and don == "cooked":
+                        want = set()
+                        for d in reach[1:]:
+                            want |= {c for c in d.attrs if c not in excluded}
+                        want -= set(own)
+                        gotc = [c for c, _, _, _ in rest]
+                        if len(gotc) != len(set(gotc)) or any(c in own for c in gotc):
+                            bad = "an attribute name is yielded twice: %s" % [names.get(c, c) for c, _, _, _ in seq]
+                        elif set(gotc) != want:
+                            bad = "integrated attributes are %s, expected %s" % (sorted(names.get(c, c) for c in gotc), sorted(names.get(c, c) for c in want))
+                    if bad is None:
+                        for c, owner, wrapped, pos in seq:
+                            if owner not in reach or c not in owner.attrs:
+                                bad = "an attribute is yielded that no reachable DIE carries"
+                            elif wrapped is not owner:
+                                bad = ("attribute %s read from DIE %s is wrapped together with DIE %s: `value` would decode it in the wrong DIE's unit (file "
+                                       "table, ranges base), so `attribute ?AT_x cooked value` differs from `@AT_x`" % (names.get(c, c), owner.name, getattr(wrapped, "name", wrapped)))
+                        if bad is None and [p for _, _, _, p in seq] != list(range(len(seq))):
+                            bad = "results are numbered %s instead of 0, 1, 2, ..." % [p for _, _, _, p in seq]
+                    if bad:
+                        bad = "`attribute` on %s: %s" % (desc, bad)
+                        break
+                if bad:
+                    break
+            if bad:
+                break
+    except OutOfBounds as x:
+        bad = "attribute_producer: %s" % x
+    except Thrown as x:
+        bad = "attribute_producer raises an error (%s) on a well-formed DIE graph" % x
+    inst.append((key, {"next_calls": n}))
+    if bad:
+        findings.append({"key": key, "where": "libzwerg/" + nxt[0]["l"], "msg": bad, "detail": None})
     return inst, findings
